@@ -98,15 +98,17 @@ def build_all(clean=False):
 
 def build_oracle():
     """Compile the extracted model + driver into build/oracle (rebuilt when the extraction changed)."""
-    ml = os.path.join(BUILD, 'ocaml', 'model.ml')
+    ocdir = os.path.join(BUILD, 'ocaml')
+    mls = [f for f in glob.glob(os.path.join(ocdir, '*.ml')) if os.path.basename(f) != 'driver.ml']
     exe = os.path.join(BUILD, 'oracle')
     drv = os.path.join(VERIF, 'ocaml', 'driver.ml')
-    if not os.path.exists(ml):
+    if not mls:
         return False
-    if os.path.exists(exe) and os.path.getmtime(exe) >= max(os.path.getmtime(ml), os.path.getmtime(drv)):
+    newest = max([os.path.getmtime(f) for f in mls] + [os.path.getmtime(drv)])
+    if os.path.exists(exe) and os.path.getmtime(exe) >= newest:
         return True
-    r = run(['sh', '-c', 'cp %s driver.ml && ocamlfind ocamlopt -w -a -unsafe -inline 200 model.mli model.ml driver.ml -o %s' % (drv, exe)],
-            cwd=os.path.join(BUILD, 'ocaml'), timeout=600)
+    r = run(['sh', '-c', 'cp %s driver.ml && ocamlfind ocamlopt -w -a -unsafe -inline 200 $(ocamlfind ocamldep -sort *.mli *.ml) -o %s' % (drv, exe)],
+            cwd=ocdir, timeout=900)
     with open(os.path.join(BUILD, 'logs', 'ocaml.log'), 'w') as f:
         f.write(r.stdout)
     return r.returncode == 0 and os.path.exists(exe)
